@@ -76,6 +76,11 @@ if am:
         tot = [a + b for a, b in zip(tot, row)]
         out.append("| %s | %s |\n" % (pid, " | ".join(str(v) for v in row)))
     out.append("| all | %s |\n" % " | ".join(str(v) for v in tot))
+    holes = sorted((k, v) for k, v in triage.items() if v.lower().startswith("hole"))
+    if holes:
+        out.append("\nSurvivors judged to be holes in a check (the property as stated is violated by the mutant); each check was extended and the mutant is killed now:\n\n| mutant (property:file:line:operator) | what was missing, what kills it now |\n|---|---|\n")
+        for k, v in holes:
+            out.append("| `%s` | %s |\n" % (k, v.replace("|", "\\|")))
     surv = [(pid, r) for pid in sorted(am) for r in am[pid] if r.get("result") == "survived"]
     if surv:
         out.append("\nSurvivors and their triage (a survivor is a mutant of an anchored file that neither the repository's tests nor the quick check noticed):\n\n| property | mutant | verdict |\n|---|---|---|\n")
